@@ -8,9 +8,9 @@ Open Scope N_scope.
 Lemma perform_loop_log n sc d log :
   exists k, snd (fst (perform_loop n sc d log)) = log ++ repeat d (S k).
 Proof.
-  revert sc log. induction n as [|n IH]; intros sc log; simpl.
-  - destruct (script_pop sc (url_host (d_url d))) as [sc' b]. destruct b; exists 0%nat; reflexivity.
-  - destruct (script_pop sc (url_host (d_url d))) as [sc' b]. destruct b.
+  revert sc log. induction n as [|n IH]; intros sc log; cbn [perform_loop].
+  - destruct (script_pop sc (url_host (d_url d))) as [sc' b]. destruct (origin_answer d b); exists 0%nat; reflexivity.
+  - destruct (script_pop sc (url_host (d_url d))) as [sc' b]. destruct (origin_answer d b).
     + exists 0%nat. reflexivity.
     + destruct (IH sc' (log ++ [d])) as [k Hk]. exists (S k). rewrite Hk. rewrite <- app_assoc. reflexivity.
 Qed.
